@@ -82,6 +82,10 @@ class Evaluator:
                 return v
             return None
         if k == 'lv':
+            # a loop-head value: equal to its initialiser when the loop never touches the local (Reach tells us which)
+            inv = getattr(self, 'invariant_lv', None)
+            if inv is not None and inv(t[1], t[2]):
+                return self.ev(t[3], depth + 1)
             return None
         if k == 'phi':
             vals = [self.ev(a, depth + 1) for a in t[1]]
@@ -354,10 +358,47 @@ class Reach:
         self.unknown_switches = []
         self.decided_by_flow = {}
         self._rel = {}
+        self._inv_memo = {}
+        if getattr(evaluator, 'invariant_lv', None) is None:
+            evaluator.invariant_lv = self._lv_invariant
         for bb in self.it.rpo:
             self.edges[bb] = self._succ(bb)
         self.reachable = self._reach(0, set())
         self._refine_const_locals()
+
+    def _lv_invariant(self, head, name):
+        """The local behind a loop-head value `lv@head(name)` is neither assigned, nor written by a call, nor mutably
+        borrowed anywhere inside the loop: the widening was spurious and the value is the one from before the loop."""
+        key = (head, name)
+        if key in self._inv_memo:
+            return self._inv_memo[key]
+        res = False
+        if isinstance(name, str) and name.startswith('L') and name[1:].isdigit():
+            n = int(name[1:])
+            it = self.it
+            loop = {head}
+            stack = [u for (u, h) in it.back_edges if h == head]
+            while stack:
+                x = stack.pop()
+                if x in loop:
+                    continue
+                loop.add(x)
+                stack.extend(it.preds.get(x, []))
+            res = True
+            for b in loop:
+                blk = self.body.blocks[b]
+                for st in blk['stmts']:
+                    if st['k'] == 'assign':
+                        if st['place']['local'] == n:
+                            res = False
+                        rv = st['rv']
+                        if rv.get('k') in ('ref', 'rawptr') and rv.get('mut') and rv['place']['local'] == n:
+                            res = False
+                t = blk['term']
+                if t['k'] == 'call' and t['dest']['local'] == n:
+                    res = False
+        self._inv_memo[key] = res
+        return res
 
     def _succ(self, bb):
         sw = self.it.switches.get(bb)
@@ -401,7 +442,16 @@ class Reach:
                     elif rv['k'] == 'agg' and rv.get('agg') == 'adt' and rv.get('is_enum') and 'vidx' in rv:
                         last = ('variant', rv['vidx'])
                     else:
+                        # any other expression whose value the evaluator can decide under the assumption (`a == b`, `x < y`)
                         last = ('x', bb)
+                        si_ = self.body.blocks[bb]['stmts'].index(s)
+                        av = self.it.assign_vals.get((bb, si_))
+                        if av is not None and av[0] == local:
+                            v_ = self.evr.ev(av[1])
+                            if isinstance(v_, bool):
+                                last = ('c', int(v_))
+                            elif isinstance(v_, int):
+                                last = ('c', v_)
             t = self.body.blocks[bb]['term']
             if t['k'] == 'call' and t['dest']['local'] == local:
                 # the value of a call: decided if the evaluator can evaluate the call term
